@@ -39,7 +39,7 @@ fn native_dic_isolated_worker() {
     if let Ok(p) = std::env::var("VERIF_ISO_INPUT") { if let Ok(b) = std::fs::read(&p) { let _ = Dictionary::from_existing(&b); } }
 }
 
-//@unit props=C18 label=B tier=quick native=1 fn=dic::Dictionary::{from_existing,list_words,dump_dict_node,get_string,get_string_characters,index_to_rune} bound="by execution: one hand-packed dictionary (3 words over 5 entries, character and word entries, one child link): every truncation from the table header on (every 64th before it); 7 single-byte corruptions per byte of the block offset/length tables, of the first 16 character-block words and of all five blocks; 7 single-byte corruptions per byte of the inner-node and entry blocks and 17 hand-made reference damages (child cycles, out-of-range entry / child / character / word references, huge sibling counts), each in an isolated worker process under a 2 s / 512 MiB limit"
+//@unit props=C18 label=B tier=quick native=1 fn=dic::Dictionary::{from_existing,list_words,dump_dict_node,get_string,get_string_characters,index_to_rune} bound="by execution: one hand-packed dictionary (3 words over 5 entries, character and word entries, one child link): every truncation from the table header on (every 64th before it); 7 single-byte corruptions per byte of the block offset/length tables, of the first 16 character-block words and of all five blocks; 7 single-byte corruptions per byte of the inner-node and entry blocks and 17 hand-made reference damages (child cycles, out-of-range entry / child / character / word references, huge sibling counts), each in an isolated worker process under a 4 s / 512 MiB limit"
 //@desc a well-formed dictionary lists its words (vacuity guard: the walk really reaches character, word and child entries); damaged dictionaries (truncated, any table offset, length, node, entry field or reference damaged, cyclic child links) yield None or a value - no panic, no stack overflow, no walk that never ends
 #[test]
 fn native_dic_damaged_nopanic() {
@@ -59,12 +59,12 @@ fn native_dic_damaged_nopanic() {
         w[*i] = o;
     }
     // the inner-node and entry blocks hold the links and counts that drive the walk: a damaged one can make it run or allocate without end,
-    // which no catch_unwind sees - those cases run in an isolated worker process (2 s, 512 MiB); the slug names block, byte and value
+    // which no catch_unwind sees - those cases run in an isolated worker process (4 s, 512 MiB); the slug names block, byte and value
     for (k, bname) in [(1usize, "inner"), (4, "entries")] { for i in abs[k]..abs[k] + lens[k] {
         let o = v[i];
         for c in [0u8, 1, 0x7F, 0x80, 0xFF, o.wrapping_add(1), o.wrapping_sub(1)] { if c != o {
             w[i] = c;
-            s.run_isolated("native_dic_isolated_worker", &w, &format!("{bname}-byte-{}-set-to-{c:#04x}", i - abs[k]), &format!("byte {} of the {bname} block changed from {o:#04x} to {c:#04x}", i - abs[k]), 2, 512);
+            s.run_isolated("native_dic_isolated_worker", &w, &format!("{bname}-byte-{}-set-to-{c:#04x}", i - abs[k]), &format!("byte {} of the {bname} block changed from {o:#04x} to {c:#04x}", i - abs[k]), 4, 512);
         } }
         w[i] = o;
     } }
@@ -91,7 +91,7 @@ fn native_dic_damaged_nopanic() {
     for (vi, (what, edit)) in variants.iter().enumerate() {
         let mut p = ndc_sample(); edit(&mut p);
         let (b, _, _) = ndc_file(&p);
-        s.run_isolated("native_dic_isolated_worker", &b, &format!("variant-{vi}-{}", what.split(' ').take(4).collect::<Vec<_>>().join("-").replace(|c: char| !c.is_ascii_alphanumeric() && c != '-', "")), what, 2, 512);
+        s.run_isolated("native_dic_isolated_worker", &b, &format!("variant-{vi}-{}", what.split(' ').take(4).collect::<Vec<_>>().join("-").replace(|c: char| !c.is_ascii_alphanumeric() && c != '-', "")), what, 4, 512);
     }
     s.finish("native_dic_damaged_nopanic");
 }
